@@ -92,6 +92,7 @@ def load(repo=None):
     e.config = importlib.import_module('src.generators.config')
     e.cfg = e.config.cfg
     e.generator = importlib.import_module('src.generators.generator')
+    importlib.import_module('src.modules.processor')     # everything src.args needs, so that re-importing it is cheap
     e.defaults = (e.cfg.dis.use_site_variance, e.cfg.dis.use_site_contravariance,
                   e.cfg.prob.bounded_type_parameters, e.cfg.prob.parameterized_functions)
     e.words = sorted(e.utils.RandomUtils.INITIAL_WORDS)
@@ -399,30 +400,50 @@ def nontrivial(stats, combo):
 # driver
 # ----------------------------------------------------------------------------------------------------------------
 
-def eval_one(e, lang, seed, combo, via_cli=False):
-    """-> dict(ok, violations, stats, error, digest)"""
-    err = None
+class Abandon(BaseException):
+    """raised by the CPU-time budget of one generation (BaseException: no handler of /repo may swallow it)"""
+
+
+def _alarm(signum, frame):
+    raise Abandon()
+
+
+def eval_one(e, lang, seed, combo, via_cli=False, cpu_budget=None):
+    """generate one program with the real generator and evaluate the six clauses on it
+    -> dict(violations, stats, error).  cpu_budget: seconds of CPU time after which the generation is abandoned"""
+    import signal
+    armed = False
+    if cpu_budget:
+        try:
+            signal.signal(signal.SIGVTALRM, _alarm)
+            signal.setitimer(signal.ITIMER_VIRTUAL, cpu_budget)
+            armed = True
+        except ValueError:      # not in the main thread: no budget
+            armed = False
     try:
-        if via_cli:
-            mod, err = cli(e, combo, lang)
-            if err:
-                return dict(violations=[dict(kind='cli:command-line-rejected', path='', type='', detail=err,
-                                             origin=None)], stats=None, error=None)
-            vio = cli_cfg_violations(e, combo)
-            _prepare(e, lang, seed)
-            prog = e.generator.Generator(language=lang).generate()
-        else:
-            vio = []
-            prog = generate(e, lang, seed, combo)
+        try:
+            if via_cli:
+                mod, err = cli(e, combo, lang)
+                if err:
+                    return dict(violations=[dict(kind='cli:command-line-rejected', path='', type='', detail=err,
+                                                 origin=None)], stats=None, error=None)
+                vio = cli_cfg_violations(e, combo)
+                _prepare(e, lang, seed)
+                prog = e.generator.Generator(language=lang).generate()
+            else:
+                vio = []
+                prog = generate(e, lang, seed, combo)
+        finally:
+            if armed:
+                signal.setitimer(signal.ITIMER_VIRTUAL, 0)
+    except Abandon:
+        return dict(violations=[], stats=None, error='abandoned (cpu budget %ss)' % cpu_budget)
     except RecursionError:
         return dict(violations=[], stats=None, error='RecursionError')
     except Exception as ex:     # generator failures are C18's subject; counted, not judged here
         return dict(violations=[], stats=None, error='%s: %s' % (type(ex).__name__, str(ex)[:100]))
     v, stats = check_program(e, prog, lang, combo)
-    if via_cli:
-        for x in v:
-            x['kind'] = x['kind']
-    return dict(violations=vio + v, stats=stats, error=None, size=len(str(prog)))
+    return dict(violations=vio + v, stats=stats, error=None)
 
 
 def cli_cfg_violations(e, combo):
@@ -443,64 +464,88 @@ def cli_cfg_violations(e, combo):
     return out
 
 
+_ENV = {}
+
+
 def _job(job):
-    """worker: one (lang, seed) over all listed switch combinations"""
-    lang, seed, keys, via_cli = job
+    """worker: one (index, language, seed, switches, direct|cli, budget)"""
+    i, lang, seed, k, via_cli, budget = job
     e = _ENV.get('e')
     if e is None:
         e = _ENV['e'] = load()
-    res = []
-    for k in keys:
-        r = eval_one(e, lang, seed, combo_of(k), via_cli)
-        res.append((lang, seed, k, via_cli, r))
-    return res
+    c0 = time.process_time()
+    r = eval_one(e, lang, seed, combo_of(k), via_cli, budget)
+    r['cpu'] = round(time.process_time() - c0, 3)
+    return i, lang, seed, k, via_cli, r
 
 
-_ENV = {}
+TIERS = {
+    # base seeds, extra seeds from VERIF_SEED, cli seeds, cpu budget per generation (s), wall deadline (s)
+    'quick': (BASE_SEEDS[:4], 1, [1], 4, 48),
+    'thorough': (BASE_SEEDS, 20, [1, 2, 3], 25, 780),
+}
 
 
 def plan(tier, seed):
     """(jobs, description).  The base list is fixed; VERIF_SEED adds seeds, never replaces any."""
     rnd = random.Random(seed)
     keys = [combo_key(c) for c in COMBOS]
-    if tier == 'quick':
-        base, extra, cli_seeds = BASE_SEEDS[:6], 2, [1]
-    else:
-        base, extra, cli_seeds = BASE_SEEDS, 20, [1, 2, 3]
+    base, extra, cli_seeds, budget, deadline = TIERS['quick' if tier == 'quick' else 'thorough']
     seeds = list(base)
     while len(seeds) < len(base) + extra:
         s = rnd.randrange(1000, 10 ** 6)
         if s not in seeds:
             seeds.append(s)
-    jobs = [(lang, s, keys, False) for s in seeds for lang in LANGS]
-    jobs += [(lang, s, keys, True) for s in cli_seeds for lang in LANGS]
-    desc = ('%d generator seeds (fixed %s + %d from VERIF_SEED) x 4 languages x 16 switch combinations with the '
+    jobs = []
+    # the command-line runs and the all-switches-on runs first: they are the ones a deadline must not cut
+    for s in cli_seeds:
+        for lang in LANGS:
+            for k in keys:
+                jobs.append((lang, s, k, True))
+    for s in seeds:
+        for k in sorted(keys, key=lambda x: -x.count('1')):
+            for lang in LANGS:
+                jobs.append((lang, s, k, False))
+    jobs = [(i,) + j + (budget,) for i, j in enumerate(jobs)]
+    desc = ('%d generator seeds (fixed %d..%d + %d from VERIF_SEED) x 4 languages x 16 switch combinations with the '
             'configuration set directly, plus seeds %s x 4 languages x 16 combinations through a re-import of '
-            'src.args with the command-line switches'
-            % (len(seeds), '%d..%d' % (base[0], base[-1]), extra, cli_seeds))
-    return jobs, desc
+            'src.args with the command-line switches (= %d generations; each abandoned after %d s CPU, the run stops '
+            'scheduling after %d s wall)'
+            % (len(seeds), base[0], base[-1], extra, cli_seeds, len(jobs), budget, deadline))
+    return jobs, desc, deadline
 
 
 def run(tier, seed, stop_first=False, workers=None):
     t0 = time.time()
-    jobs, desc = plan(tier, seed)
+    jobs, desc, deadline = plan(tier, seed)
     workers = workers or int(os.environ.get('C17_WORKERS', '0')) or min(16, os.cpu_count() or 1)
+    _ENV['e'] = load()          # before the fork: the workers inherit the loaded tree
     results = []
+    cut = False
     if workers > 1:
         import multiprocessing as mp
-        ctx = mp.get_context('fork')
-        with ctx.Pool(workers) as pool:
-            for r in pool.imap(_job, jobs, chunksize=1):
-                results.extend(r)
-                if stop_first and any(x[4]['violations'] for x in r):
-                    pool.terminate()
+        pool = mp.get_context('fork').Pool(workers)
+        try:
+            for r in pool.imap_unordered(_job, jobs, chunksize=1):
+                results.append(r)
+                if stop_first and r[5]['violations']:
                     break
+                if time.time() - t0 > deadline:
+                    cut = True
+                    break
+        finally:
+            pool.terminate()
+            pool.join()
     else:
         for j in jobs:
             r = _job(j)
-            results.extend(r)
-            if stop_first and any(x[4]['violations'] for x in r):
+            results.append(r)
+            if stop_first and r[5]['violations']:
                 break
+            if time.time() - t0 > deadline:
+                cut = True
+                break
+    results.sort(key=lambda r: r[0])
     evaluations = 0
     failures = {}
     distinct = set()
@@ -509,10 +554,11 @@ def run(tier, seed, stop_first=False, workers=None):
     samples = []
     totals = dict(projections=0, contra_projections=0, bounded_tparams=0, parameterized_functions=0,
                   variant_class_tparams=0, types=0)
-    for lang, s, k, via_cli, r in results:
+    for i, lang, s, k, via_cli, r in results:
         combo = combo_of(k)
         if r['error']:
-            failures[r['error'].split(':')[0]] = failures.get(r['error'].split(':')[0], 0) + 1
+            key = r['error'].split(':')[0]
+            failures[key] = failures.get(key, 0) + 1
             continue
         evaluations += 1
         st = r['stats']
@@ -521,8 +567,8 @@ def run(tier, seed, stop_first=False, workers=None):
                 totals[kk] += st[kk]
             if nontrivial(st, combo):
                 distinct.add((lang, s, k, via_cli))
-            if len(samples) < 3 and k == '1111' and st['parameterized_classes']:
-                samples.append(dict(language=lang, seed=s, switches=combo, types_walked=st['types'],
+            if len(samples) < 3 and k == '1111' and st['parameterized_classes'] and not via_cli:
+                samples.append(dict(language=lang, seed=s, switches=k, types_walked=st['types'],
                                     classes=st['classes'], functions=st['functions'],
                                     projections=st['projections'], bounded_type_parameters=st['bounded_tparams'],
                                     parameterized_functions=st['parameterized_functions']))
@@ -534,7 +580,7 @@ def run(tier, seed, stop_first=False, workers=None):
             rec = dict(check=name, function=function_of(v), language=lang, seed=s, switches=k,
                        switch_names=[x for x in SWITCHES if combo[x]], via_cli=via_cli,
                        path=v['path'], offending=v['type'], origin=v.get('origin'),
-                       expected='no such occurrence (%s)' % v['kind'].split(':')[0], actual=v['detail'], count=1)
+                       expected='no such occurrence (%s)' % v['kind'], actual=v['detail'], count=1)
             seen_kinds[name] = rec
             violations.append(rec)
     rule = (desc + '; every program is walked over every type occurrence reachable from the Program object '
@@ -543,10 +589,11 @@ def run(tier, seed, stop_first=False, workers=None):
             '(specs/switch_ref.py); library type constructors (name not declared by the program) are exempt from the '
             'declaration-site clause only; an input (language, seed, switches, direct|cli) is non-trivial if at least '
             'one switch is on and the program declares a parameterized class and contains type-parameter '
-            'occurrences; generator exceptions are counted (C18) and not judged')
+            'occurrences; generator exceptions / abandoned generations are counted (C18) and not judged')
     return dict(evaluations=evaluations, distinct_nontrivial=len(distinct), rule=rule, samples=samples,
-                violations=violations, generator_failures=failures, met=totals, exhaustive=False,
-                workers=workers, seconds=round(time.time() - t0, 1))
+                violations=violations, planned=len(jobs), not_run_deadline=(len(jobs) - len(results)) if cut else 0,
+                generator_failures=failures, met=totals, cpu_seconds=round(sum(r[5].get('cpu', 0) for r in results), 1), exhaustive=False, workers=workers,
+                seconds=round(time.time() - t0, 1))
 
 
 def replay(fi, verbose=True):
